@@ -188,6 +188,7 @@ static inline ChildEnd classify_death(int st, const char *note, bool hang) {
 
 // Execute a plan in a forked child (isolation against crashes); returns how it ended.
 static inline ChildEnd run_isolated(Harness &h, const Json &plan, int timeout_s, bool reclass = true) {
+  if (getenv("VERIF_NO_RECLASS")) reclass = false;  // development aid: look at (and minimise) what a side finding really is
   static Shared *sh = nullptr;
   if (!sh) sh = (Shared *) mmap(nullptr, sizeof(Shared), PROT_READ | PROT_WRITE, MAP_SHARED | MAP_ANONYMOUS, -1, 0);
   WorkerSlot *slot = &sh->w[0];
@@ -290,7 +291,7 @@ static inline int mode_run(Harness &h, uint64_t seed, int64_t count, int jobs, c
   int hang_s = h.hang_seconds();
   FILE *sf = fopen((outdir + "/fail.sup").c_str(), "w");
   int64_t crashes = 0;
-  std::map<std::string, int64_t> side;
+  std::map<std::string, int64_t> side, side_first;  // side_first: 1 + smallest run index per side class
   auto spawn = [&](int w) {
     fflush(stdout); fflush(stderr); fflush(sf);
     pid_t p = fork();
@@ -325,7 +326,7 @@ static inline int mode_run(Harness &h, uint64_t seed, int64_t count, int jobs, c
       ChildEnd e = classify_death(st, (const char *) sh->w[w].note, hang);
       if (sh->w[w].inflight >= 0 && e.cls.compare(0, 5, "side_") != 0) { Json pl = make_plan(h, seed, sh->w[w].inflight, cfg); h.reclassify(pl, e); }
       if (e.cls.compare(0, 5, "side_") == 0) {  // outside the property under test: counted, never a verdict
-        side[e.cls + "/" + e.sig]++; sh->w[w].inflight = -1; sh->w[w].done++;
+        side[e.cls + "/" + e.sig]++; { auto &fi = side_first[e.cls + "/" + e.sig]; int64_t ix = sh->w[w].inflight; if (fi == 0 || ix + 1 < fi) fi = ix + 1; } sh->w[w].inflight = -1; sh->w[w].done++;
         if (sh->next_index < count && !sh->stop) spawn(w); else alive--;
         continue;
       }
@@ -364,11 +365,12 @@ static inline int mode_run(Harness &h, uint64_t seed, int64_t count, int jobs, c
     std::string d = read_file(outdir + (w < 0 ? std::string("/fail.sup") : fmt("/fail.%d", w)));
     size_t p = 0; while (p < d.size()) { size_t q = d.find('\n', p); if (q == std::string::npos) q = d.size(); if (q > p) { try { fl.push(Json::parse(d.substr(p, q - p))); } catch (...) {} } p = q + 1; }
   }
-  { Json keep = Json::array(); for (auto &f : fl.a) { if (f.gets("status") == "side") side[f.gets("cls") + "/" + f.gets("sig")]++; else keep.push(f); } fl = keep; }
+  { Json keep = Json::array(); for (auto &f : fl.a) { if (f.gets("status") == "side") { std::string k = f.gets("cls") + "/" + f.gets("sig"); side[k]++; auto &fi = side_first[k]; int64_t ix = f.geti("index"); if (fi == 0 || ix + 1 < fi) fi = ix + 1; } else keep.push(f); } fl = keep; }
   std::sort(fl.a.begin(), fl.a.end(), [](const Json &x, const Json &y) { return x.geti("index") < y.geti("index"); });
   sum.set("failures", fl);
   Json sdj = Json::object(); for (auto &p : side) sdj.set(p.first, (long long) p.second);
   sum.set("side_findings", sdj);
+  { Json sfj = Json::object(); for (auto &p : side_first) sfj.set(p.first, (long long) (p.second - 1)); sum.set("side_first_index", sfj); }
   Json sj = Json::array(); int ns = (int) std::min<int64_t>((int64_t) sh->nsamples, (int64_t) MAX_SAMPLES); for (int i = 0; i < ns; i++) sj.push((long long) sh->sample_idx[i]);
   sum.set("sample_indices", sj);
   write_file(outdir + "/summary.json", sum.str());
@@ -389,7 +391,7 @@ static inline Json minimise(Harness &h, Json plan, const ChildEnd &target, int t
   auto same = [&](const Json &cand) {
     (*evals)++; ChildEnd e = run_isolated(h, cand, timeout_s, false);
     if (e.status == "ok" || e.cls != target.cls || e.sig != target.sig) return false;
-    h.reclassify(cand, e);  // only candidates that still look the same pay for the reclassification experiment
+    if (!getenv("VERIF_NO_RECLASS")) h.reclassify(cand, e);  // only candidates that still look the same pay for the reclassification experiment
     return e.cls == target.cls && e.sig == target.sig;
   };
   auto out_of_budget = [&]() { return *evals > max_evals || now_ms() - t_start > max_ms; };
